@@ -439,6 +439,39 @@ enum QueryPeerState {
     Succeeded,
 }
 
+#[cfg(feature = "verif-hooks")]
+impl<TNodeId> FindNodeQuery<TNodeId> {
+    /// Abstract state for the verification harness (absolute instants scrubbed).
+    pub fn verif_state(&self, now: Instant) -> crate::verif::QuerySnap {
+        let progress = match self.progress {
+            QueryProgress::Iterating { no_progress } => no_progress.min(253) as u8,
+            QueryProgress::Stalled => 254,
+            QueryProgress::Finished => 255,
+        };
+        let peers = self
+            .closest_peers
+            .values()
+            .map(|peer| {
+                let mut hash = [0u8; 32];
+                hash.copy_from_slice(peer.key.verif_hash());
+                let (state, elapsed) = match peer.state {
+                    QueryPeerState::NotContacted => (0, false),
+                    QueryPeerState::Waiting(timeout) => (1, now >= timeout),
+                    QueryPeerState::Unresponsive => (2, false),
+                    QueryPeerState::Failed => (3, false),
+                    QueryPeerState::Succeeded => (4, false),
+                };
+                (hash, state, elapsed, true)
+            })
+            .collect();
+        crate::verif::QuerySnap {
+            progress,
+            num_waiting: self.num_waiting,
+            peers,
+        }
+    }
+}
+
 #[cfg(test)]
 mod tests {
     use super::*;
